@@ -14,6 +14,25 @@ CNAME = {'bool': 'bool', 'byte': 'int8', 'ubyte': 'uint8', 'short': 'int16', 'us
          'uint': 'uint32', 'long': 'int64', 'ulong': 'uint64', 'float': 'float', 'double': 'double'}
 
 
+DEFAULTS = {
+    'bool': [1], 'byte': [-128, 7], 'ubyte': [255, 3], 'short': [-32768, 300], 'ushort': [65535], 'int': [2147483647, -5], 'uint': [4294967295],
+    'long': [-9223372036854775808, 9007199254740993], 'ulong': [18446744073709551615, 1],
+    'float': [0.1, 1.0000001, 16777215.0, -2.5], 'double': [0.30000000000000004, 3.141592653589793, -0.1, 1e300, 2.2250738585072014e-308],
+}
+
+
+def default_literal(ty, v):
+    if ty == 'bool': return 'true' if v else 'false'
+    if ty in ('float', 'double'): return repr(float(v))
+    return str(v)
+
+
+def default_bytes(ty, v):
+    import struct
+    fmt = {'bool': '<B', 'byte': '<b', 'ubyte': '<B', 'short': '<h', 'ushort': '<H', 'int': '<i', 'uint': '<I', 'long': '<q', 'ulong': '<Q', 'float': '<f', 'double': '<d'}[ty]
+    return struct.pack(fmt, v if ty not in ('float', 'double') else float(v))
+
+
 def struct_layout(members, structs, force_align=0):
     off, align, offs = 0, 1, []
     for nm, ty in members:
@@ -34,12 +53,16 @@ def gen_schema(rng, nstructs=2, ntables=3, nunions=1, features=None, fixed=None)
     for i in range(nstructs):
         nm = 'S%d' % i
         mem = []
-        for j in range(rng.randint(1, 4)):
+        nmem = rng.randint(1, 4)
+        tiny = (i == 0 and rng.random() < 0.6)          # a struct of alignment 1 or 2 (union members of it need no 4-byte alignment)
+        for j in range(nmem):
+            if tiny:
+                mem.append(('m%d' % j, rng.choice(['byte', 'ubyte', 'bool', 'short'] if j == 0 else ['byte', 'ubyte', 'bool']))); continue
             prev = [s for s in S['struct_order']]
             if prev and rng.random() < 0.25: ty = rng.choice(prev)
             else: ty = rng.choice(list(SCALARS))
             mem.append(('m%d' % j, ty))
-        fa = rng.choice([0, 0, 0, 16, 8])
+        fa = 0 if tiny else rng.choice([0, 0, 0, 16, 8])
         size, align, offs = struct_layout(mem, S['structs'], fa)
         if fa and fa < align: fa = 0
         S['structs'][nm] = {'members': mem, 'size': size, 'align': align, 'force_align': fa}
@@ -66,7 +89,9 @@ def gen_schema(rng, nstructs=2, ntables=3, nunions=1, features=None, fixed=None)
         for j in range(nf):
             k = rng.choice(kinds)
             f = {'name': 'f%d' % j, 'kind': k, 'required': False}
-            if k == 'scalar': f['type'] = rng.choice(list(SCALARS))
+            if k == 'scalar':
+                f['type'] = rng.choice(list(SCALARS))
+                if rng.random() < 0.5: f['default'] = rng.choice(DEFAULTS[f['type']])
             elif k in ('struct', 'vec_struct', 'nested_struct'):
                 if not S['struct_order']: f['kind'] = 'scalar'; f['type'] = 'int'
                 else: f['type'] = rng.choice(S['struct_order'])
@@ -114,7 +139,7 @@ def render_fbs(S):
         for f in t['fields']:
             k, ty = f['kind'], f.get('type')
             attrs = []
-            if k == 'scalar': tx = ty
+            if k == 'scalar': tx = ty + (' = ' + default_literal(ty, f['default']) if 'default' in f else '')
             elif k == 'struct': tx = ty
             elif k == 'string': tx = 'string'
             elif k == 'vec_scalar': tx = '[%s]' % ty
@@ -247,6 +272,15 @@ def evolve_pair(rng, **kw):
     for u in A['unions']:
         k = rng.choice([0, 1, 2])
         u['members'] = u['members'][:max(1, len(u['members']) - k)]
+    # aimed evolutions: every table of B also gets appended scalar fields whose defaults need all their digits, and every
+    # union of B gets an appended member of a small-alignment struct when the schema has one
+    small = [n for n in B['struct_order'] if B['structs'][n]['align'] < 4]
+    for tb in B['tables']:
+        for ty in ('double', 'float', rng.choice(list(SCALARS))):
+            tb['fields'].append({'name': 'f%d' % len(tb['fields']), 'kind': 'scalar', 'type': ty, 'required': False,
+                                 'default': rng.choice(DEFAULTS[ty])})
+    for ub in B['unions']:
+        if small and ('s', small[0]) not in ub['members']: ub['members'].append(('s', small[0]))
     # B deprecates some non-required fields that A still has
     for ta, tb in zip(A['tables'], B['tables']):
         for fa, fb in zip(ta['fields'], tb['fields']):
@@ -282,14 +316,20 @@ def render_dumper(S, mask=None):
         o.append('static void dump_%s(%s_table_t t) { size_t i, n; (void)i; (void)n; if (!t) { printf("~"); return; } if (++dump_depth > 200) { printf("DEEP"); --dump_depth; return; } printf("{");' % (T, T))
         for f in t['fields']:
             k, ty, N = f['kind'], f.get('type'), f['name']
-            if N not in mt.get(T, set()): continue
+            if N not in mt.get(T, set()):
+                # a field the other (older) version does not know: scalars are dumped with a marker so that the check can compare
+                # what this version reads from an old buffer with the declared default
+                if k == 'scalar' and not f.get('deprecated'):
+                    ct = {'bool': 'flatbuffers_bool_t', 'byte': 'int8_t', 'ubyte': 'uint8_t', 'short': 'int16_t', 'ushort': 'uint16_t', 'int': 'int32_t', 'uint': 'uint32_t', 'long': 'int64_t', 'ulong': 'uint64_t', 'float': 'float', 'double': 'double'}[ty]
+                    o.append('  { %s v = %s_%s(t); printf("%s.%s!=%%s", %s_%s_is_present(t) ? "+" : "-"); dump_hex(&v, sizeof(v)); printf(";"); }' % (ct, T, N, T, N, T, N))
+                continue
             a = '%s_%s' % (T, N)
             o.append('  printf("%s=");' % N)
             if f.get('deprecated'):
                 # no accessor in this version: the other version must see it absent
                 o.append('  printf("%s");' % ('~' if k not in ('union', 'vec_union') else ('u0:~' if k == 'union' else '~')))
                 if k == 'scalar':
-                    o[-1] = '  printf("-"); { %s z; memset(&z, 0, sizeof(z)); dump_hex(&z, sizeof(z)); }' % ({'bool': 'uint8_t', 'byte': 'int8_t', 'ubyte': 'uint8_t', 'short': 'int16_t', 'ushort': 'uint16_t', 'int': 'int32_t', 'uint': 'uint32_t', 'long': 'int64_t', 'ulong': 'uint64_t', 'float': 'float', 'double': 'double'}[ty])
+                    o[-1] = '  printf("-%s");' % default_bytes(ty, f.get('default', 0)).hex()
                 o.append('  printf(";");')
                 continue
             if k == 'scalar':
